@@ -285,12 +285,24 @@ def run_cli_fonts(report, rng):
     from harness import build, e2e
 
     docs, srcs = e2e.gen_sources(rng, n=2, viewbox=(0, 0, 100, 100))
-    for fmt, res, via in (("cbdt", 64, "flag"), ("sbix", 48, "file"), ("cbdt", 32, "file")):
+    # non-square artwork in the proportional mode (the strike size is the HEIGHT of the images), and plain one-colour
+    # artwork next to another configuration whose sources have the same file names and another colour
+    def flat(vb_w, colour):
+        return f'<svg xmlns="http://www.w3.org/2000/svg" viewBox="0 0 {vb_w} 100"><path d="M0,0 L{vb_w},0 L{vb_w},100 L0,100 Z" fill="{colour}"/></svg>'
+
+    names = [s_[0] for s_ in srcs]
+    wide = [(names[0], flat(160, "#0000ff"), srcs[0][2]), (names[1], flat(60, "#0000ff"), srcs[1][2])]
+    other = [(names[0], flat(160, "#ff0000"), srcs[0][2]), (names[1], flat(60, "#ff0000"), srcs[1][2])]
+    plans = [("cbdt", 64, "flag", srcs, 1000, {}), ("sbix", 48, "file", srcs, 1000, {}), ("cbdt", 32, "file", srcs, 1000, {}),
+             ("cbdt", 64, "flag", wide, 0, {}), ("sbix", 40, "file", wide, 0, {}),
+             ("cbdt", 48, "file", wide, 0, dict(companion=(dict(color_format="cbdt", upem=1000, ascender=800, descender=-200, width=0, bitmap_resolution=48), other))),
+             ("sbix", 48, "file", wide, 0, dict(companion=(dict(color_format="sbix", upem=1000, ascender=800, descender=-200, width=0, bitmap_resolution=48), other)))]
+    for fmt, res, via, srcs, width, extra in plans:
         upem, asc, desc = 1000, 800, -200
-        over = dict(color_format=fmt, upem=upem, ascender=asc, descender=desc, width=1000, bitmap_resolution=res)
-        case = dict(kind="e2e", built_by="command line, options by " + via, config=over)
+        over = dict(color_format=fmt, upem=upem, ascender=asc, descender=desc, width=width, bitmap_resolution=res)
+        case = dict(kind="e2e", built_by="command line, options by " + via + "".join(", " + k for k in extra), config=over, sources=[s_[1][:300] for s_ in srcs])
         try:
-            font, cfg, picos, _ = build.build_cli(over, srcs, via)
+            font, cfg, picos, _ = build.build_cli(over, srcs, via, **extra)
         except Exception as ex:
             case["error"] = str(ex)[-1500:]
             report_failure(report, f"cli_font_build_{fmt}", case)
@@ -308,9 +320,18 @@ def run_cli_fonts(report, rng):
                 ppem, img = stl.ppem, bytes(stl.glyphs[g].imageData)
                 top = None
                 bottom = stl.glyphs[g].originOffsetY
-            h = Image.open(_io.BytesIO(img)).size[1]
+            im = Image.open(_io.BytesIO(img)).convert("RGBA")
+            h = im.size[1]
             if h != res:
                 probs.append(f"{g}: stored image is {h} px high, bitmap_resolution is {res}")
+            if srcs is wide:
+                # one flat colour: the stored image must be this source's, with this source's proportions
+                vb_w = 160 if fn == names[0] else 60
+                if abs(im.size[0] - res * vb_w / 100) > 1.5:
+                    probs.append(f"{g}: stored image is {im.size[0]} px wide, the source is {vb_w}:100 at height {res}")
+                px = im.getpixel((im.size[0] // 2, im.size[1] // 2))
+                if not (px[2] > 200 and px[0] < 60 and px[3] > 200):
+                    probs.append(f"{g}: the stored image's centre pixel is {px}, the source is plain blue")
             want = round(upem * h / (asc - desc))
             if ppem != want:
                 probs.append(f"{g}: strike ppem {ppem} != round(upem*height/em) = {want}")
@@ -318,8 +339,8 @@ def run_cli_fonts(report, rng):
                 probs.append(f"{g}: CBDT BearingY {top} px, the ascender at this ppem is {asc * ppem / upem:.1f} px")
             if top is None and abs(bottom - desc * ppem / upem) > 2.0:
                 probs.append(f"{g}: sbix originOffsetY {bottom} px, the descender at this ppem is {desc * ppem / upem:.1f} px")
-            report.count(("cli-font", fmt, res, via, fn), True)
-        report.hist("fonts.format", fmt + " via command line")
+            report.count(("cli-font", fmt, res, via, fn, tuple(extra), width), True)
+        report.hist("fonts.format", fmt + " via command line" + (", proportional" if width == 0 else "") + "".join(", " + k for k in extra))
         if probs:
             case["problems"] = probs[:5]
             report_failure(report, f"cli_font_{fmt}", case)
